@@ -336,6 +336,7 @@ class Crazyflie():
             self._answer_patterns = {}
             for timer in list(pending.values()):
                 timer.cancel()
+                timer.request_done = True
 
     def _no_answer_do_retry(self, pk, pattern, timeout=0.2, expired_timer=None):
         """Resend packets that we have not gotten answers to"""
@@ -347,6 +348,7 @@ class Crazyflie():
         """Timer that retries pk, and knows which timer it is when it expires"""
         holder = []
         timer = Timer(timeout, lambda: self._no_answer_do_retry(pk, pattern, timeout, holder[0]))
+        timer.request_done = False
         holder.append(timer)
         return timer
 
@@ -374,6 +376,7 @@ class Crazyflie():
                 timer = answer_patterns.pop(longest_match, None)
                 if timer is not None:
                     timer.cancel()
+                    timer.request_done = True
 
     def send_packet(self, pk, expected_reply=(), resend=False, timeout=0.2, _expired_timer=None):
         """
@@ -419,10 +422,11 @@ class Crazyflie():
                     # The incoming thread removes the pattern when the answer arrives: test and
                     # re-arm in one step, or an answered request would be retried again
                     with self._answer_patterns_lock:
-                        if _expired_timer is not None:
-                            # The pattern may be registered again by now, by a later request that expects the
-                            # same answer: only the request whose own timer expired is retried
-                            still_pending = self._answer_patterns.get(pattern) is _expired_timer
+                        if getattr(_expired_timer, 'request_done', False):
+                            # This request was answered (or dropped with its link) while its timer was
+                            # expiring. The pattern may be registered again by now, by a later request that
+                            # expects the same answer: that is not a reason to send this one again
+                            still_pending = False
                         else:
                             still_pending = pattern in self._answer_patterns
                         if still_pending:
